@@ -26,8 +26,10 @@ import numpy as np
 
 from vf import core
 
-RULE = ('factory x flags(g none/given, sigma scalar/element, lower/upper) x space kind '
-        '(rn / uniform_discr / power space) x parameter draw x input class (generic, zeros, '
+EXTRA_TARGETS = ('OdlModel.Model.ProxFloat',)   # imported by the driver only
+RULE = ('factory x flags(g none/given, sigma scalar/element, lower/upper, product/array-weighted '
+        'branch) x space kind (rn / uniform_discr with cell volume <1,=1,>1 / constant weight / '
+        'array weight / power spaces of rn and of uniform_discr) x parameter draw x input class (generic, zeros, '
         'on-threshold, large); evaluated = one (aliased, non-aliased) pair on the real code and '
         'on the model; non-trivial = P(x) is neither 0 nor x; distinct = distinct '
         '(program, flags, space kind, branch signature) among non-trivial cases.')
@@ -96,9 +98,10 @@ class Plan(object):
         self.mid, self.flags, self.kinds, self.tol, self.needs = mid, flags, kinds, tol, needs
 
 
-T = ('rn', 'discr')
-TP = ('rn', 'discr', 'pspace')
-PS = ('pspace',)
+T = ('rn', 'discr', 'rnc', 'rnw')          # element-wise bodies: every tensor-like space
+TC = ('rn', 'discr', 'rnc')                # bodies using the scalar norm weight
+TP = ('rn', 'discr', 'rnc', 'rnw', 'pspace')
+PS = ('pspace', 'pdiscr')
 
 
 def plans():
@@ -107,7 +110,7 @@ def plans():
         for up in (0, 1):
             out.append(Plan('box', '{}{}'.format(lo, up), T))
     for g in (0, 1):
-        out.append(Plan('l2', str(g), T, tol=True))
+        out.append(Plan('l2', str(g), TC, tol=True))
         out.append(Plan('ccL1', str(g), TP))
         out.append(Plan('ccL1L2', str(g), PS))
         out.append(Plan('l1l2', str(g), PS))
@@ -117,8 +120,13 @@ def plans():
             out.append(Plan('ccL2Sq', '{}{}'.format(se, g), T))
             out.append(Plan('l2Sq', '{}{}'.format(se, g), T))
             out.append(Plan('l1', '{}{}'.format(se, g), TP if not se else T))
-    for mid in ('linfty', 'ccLinfty', 'huber', 'simplex', 'sumc'):
+    for mid in ('linfty', 'ccLinfty'):
         out.append(Plan(mid, '', T))
+    out.append(Plan('huber', '0', T))
+    out.append(Plan('huber', '1', PS))
+    for mid in ('simplex', 'sumc'):
+        out.append(Plan(mid, '0', TC))          # unweighted / constant weight branch
+        out.append(Plan(mid, '1', ('rnw',)))    # array-weighted branch
     for mid in ('scaling', 'lincombOp', 'multiply', 'constant', 'zero'):
         out.append(Plan(mid, '', T))
     out.append(Plan('power', '', T, tol=True))
@@ -136,11 +144,30 @@ def make_space(kind, rng):
         return odl.rn(n), n, 1, 1.0
     if kind == 'discr':
         n = rng.choice([2, 4, 8])
-        sp = odl.uniform_discr(0, 1, n)
+        sp = odl.uniform_discr(0, rng.choice([1, 2, 8, 32]), n)   # cell volume < 1, = 1, > 1
         return sp, n, 1, float(sp.cell_volume)
+    if kind == 'rnc':
+        n = rng.choice([1, 2, 3, 5])
+        c = rng.choice([0.5, 2.0, 4.0, 0.25])
+        return odl.rn(n, weighting=c), n, 1, c
+    if kind == 'rnw':
+        n = rng.choice([1, 2, 3, 5])
+        wts = np.array([rng.choice([0.5, 1.0, 2.0, 4.0]) for _ in range(n)])
+        return odl.rn(n, weighting=wts), n, 1, 1.0
     n = rng.choice([1, 2, 4])
     mc = rng.choice([2, 3])
+    if kind == 'pdiscr':
+        n = rng.choice([2, 4])
+        return odl.ProductSpace(odl.uniform_discr(0, rng.choice([1, 2, 16]), n), mc), n, mc, 1.0
     return odl.ProductSpace(odl.rn(n), mc), n, mc, 1.0
+
+
+def const_weight(space):
+    """The constant the factories close over (`_const_weight(space)` of the module), read
+    from the module when it exists."""
+    po = _po()
+    f = getattr(po, '_const_weight', None)
+    return float(f(space)) if f is not None else 1.0
 
 
 def build(plan, kind, rng, xclass):
@@ -152,7 +179,7 @@ def build(plan, kind, rng, xclass):
     mid, fl = plan.mid, plan.flags
     par = dict(lam=rng.choice([1.0, 0.5, 2.0]), sigma=rng.choice([1.0, 0.5, 2.0, 0.25]),
                gamma=rng.choice([0.5, 1.0, 2.0]), radius=rng.choice([1.0, 0.5, 2.0, 4.0]),
-               eps=0.0, a=rng.choice([2.0, -1.0, 0.5, 0.0, 1.0, -3.0]),
+               eps=0.0, cw=const_weight(space), a=rng.choice([2.0, -1.0, 0.5, 0.0, 1.0, -3.0]),
                b=rng.choice([1.0, -2.0, 0.25, 0.0]), p=rng.choice([2.0, 3.0, 0.5, 1.5]))
     bufs = dict(g=None, sig=None, lo=None, up=None)
     x = grid(rng, N)
@@ -221,8 +248,12 @@ def build(plan, kind, rng, xclass):
         if xclass == 'thr':
             x = (par['gamma'] + sigma) * np.array([rng.choice([-1.0, 1.0, 0.5]) for _ in range(N)])
     elif mid == 'simplex':
+        if fl == '1':
+            bufs['sig'] = np.asarray(space.weighting.array, dtype=float).ravel().copy()
         P = odl.solvers.IndicatorSimplex(space, diameter=par['radius']).proximal(sigma)
     elif mid == 'sumc':
+        if fl == '1':
+            bufs['sig'] = np.asarray(space.weighting.array, dtype=float).ravel().copy()
         P = odl.solvers.IndicatorSumConstraint(space, sum_value=par['radius']).proximal(sigma)
     elif mid == 'scaling':
         P = odl.ScalingOperator(space, par['a']) if par['a'] != 1.0 else odl.IdentityOperator(space)
@@ -255,10 +286,10 @@ def model_line(c, alias, junk):
     N = c['n'] * c['mc']
     b = c['bufs']
     return ('prox id={} flags={} alias={} n={} mc={} w={} p={} lam={} sigma={} gamma={} radius={} '
-            'eps={} a={} b={} x={} j={} g={} sig={} lo={} up={}').format(
+            'eps={} cw={} a={} b={} x={} j={} g={} sig={} lo={} up={}').format(
         c['plan'].mid, c['plan'].flags or '-', int(alias), c['n'], c['mc'], bits(c['w']),
         bits(par['p']), bits(par['lam']), bits(par['sigma']), bits(par['gamma']),
-        bits(par['radius']), bits(par['eps']), bits(par['a']), bits(par['b']),
+        bits(par['radius']), bits(par['eps']), bits(par['cw']), bits(par['a']), bits(par['b']),
         bl(c['x']), bl(junk), *[bl(b[k]) if b[k] is not None else '-' for k in
                                 ('g', 'sig', 'lo', 'up')])
 
@@ -457,7 +488,8 @@ def run_prog_case(ctx, c, lines, pending):
         ctx.hit('branch/l2/' + ('step>=1(set_zero|assign g)' if np.array_equal(res['oop'][1], gz)
                                 else 'step<1(lincomb)'))
     if st == 'ok' and plan.mid in ('linfty', 'ccLinfty'):
-        inside = np.sum(np.abs(c['x'])) <= (c['par']['sigma'] if plan.mid == 'linfty' else 1.0)
+        inside = np.sum(np.abs(c['x'])) <= (c['par']['sigma'] if plan.mid == 'linfty' else 1.0) \
+            / c['par']['cw']
         ctx.hit('branch/proj_l1/' + ('inside-ball(copy)' if inside else 'outside(simplex)'))
     if st != 'ok':
         ctx.err(st.split(':')[1])
